@@ -101,7 +101,14 @@ class G:
             elif kind == "kwonly" and (default is None or r.random() < 0.5):
                 args.append(("kw", name, val()))
             elif kind == "kwargs" and r.random() < 0.5:
-                args.append(("kw", "extra", val()))
+                if r.random() < 0.5:
+                    # several keyword arguments collected by **kw, written out of alphabetical order: they arrive (and
+                    # a printed dict shows them) in the order written
+                    args.append(("kw", "zeta", val()))
+                    args.append(("kw", "alpha", val()))
+                    args.append(("kw", "mid", val()))
+                else:
+                    args.append(("kw", "extra", val()))
         if wrong:
             args.append(("kw", "nosuch_", ("lit", "w")))
         # keyword arguments after positional ones
